@@ -54,6 +54,9 @@ def check(ctx):
     # with `segment`, cleanup_desc is applied to whole chunks: its connector
     # table must not swallow description vocabulary
     from .c01 import word_tables
+    ctx.attempt(_segment_uses_the_finder)
+    from .c04 import _thresholds_and_tests   # sec_within re-attaches a block of exactly the minimum length (>=, as the flagging side)
+    ctx.attempt(_thresholds_and_tests)
     from .c11 import _copyall                 # the colon-required fallback keeps the text in ONE tract
     ctx.attempt(_copyall)
     ctx.attempt(word_tables)
@@ -350,3 +353,27 @@ def _segment(ctx):
         t2 = ' '.join(norm(s) for s in walk_local(f2.node) if isinstance(s, ast.stmt))
         ctx.shape(f"new_block = {blk}" in t2 and 'self.blocks.append(new_block)' in t2, 'TBL',
                   f"{spec.split('.')[-1]}: chunk i is {blk}")
+
+
+def _segment_uses_the_finder(ctx):
+    """PLSSChunker.segment cuts the text at the Twp/Rges that the PARSER will
+    use: the matches of TwpRgeFinder for the layout, which leaves out a
+    Twp/Rge that merely continues a section reference ("... of Section 4 of
+    T154N-R97W ...").  Cutting at every raw regex match instead splits the
+    text at such references, so with `segment` the tracts differ from the
+    unsegmented parse."""
+    fi = ctx.repo.func('PLSSChunker.segment')
+    construct = 'PLSSChunker.segment cuts at the Twp/Rges TwpRgeFinder keeps for the layout'
+    defs = [a for a in walk_local(fi.node) if isinstance(a, ast.Assign) and norm(a.targets[0]) == 'matches']
+    if not defs:
+        ctx.undecided('SIB', construct, '`matches = ...` not found')
+        return
+    for a in defs:
+        calls = {(dotted(c.func) or '').split('.')[-1] for c in ast.walk(a.value) if isinstance(c, ast.Call)}
+        raw = [c for c in ast.walk(a.value) if isinstance(c, ast.Call) and isinstance(c.func, ast.Attribute)
+               and c.func.attr in ('finditer', 'findall', 'search') and 'twprge' in norm(c.func.value).lower()]
+        ctx.tri('TwpRgeFinder' in calls, bool(raw) and 'TwpRgeFinder' not in calls, 'SIB', construct,
+                detail_bad=f"`{norm(a)[:80]}` takes every match of the raw pattern: a Twp/Rge that the finder ignores for this layout "
+                           f"(one that follows 'Section N of') becomes a cut point, so the segmented parse splits / shifts tracts and "
+                           f"raises twprge_error / unused_desc where the unsegmented parse is clean",
+                key="SIB|PLSSChunker.segment|raw-matches", where=common.loc(fi, a))
